@@ -37,8 +37,20 @@ def run(ctx, report):
     report.section("pre-roll", preroll, ctx, report, folder)
     report.section("header", header, ctx, report, folder)
     report.section("word shape", word_shape, ctx, report, folder)
-    report.not_decided += ["'visible within three frames' (timing slack over arbitrary cue spacings)",
-                           "re-read equality (needs the decoder's behaviour over sequences)"]
+    from . import scc_writer_fold
+    report.section("end to end", scc_writer_fold.run, ctx, report, {
+        "header": ("R-E2E", "1", "the Scenarist header, then time-coded lines of four-hex-digit words"),
+        "parity": ("R-E2E", "1", "every byte has odd parity"),
+        "rows": ("R-E2E", "2", "only rows 1-15 are addressed and no row holds more than 32 columns"),
+        "reread": ("R-E2E", "3", "a reference line-21 decoder shows one caption per input caption with the same words in the "
+                                 "same order (a word longer than 32 columns is split)"),
+        "timecodes": ("R-E2E", "4", "time codes are non-negative and non-decreasing"),
+        "visible": ("R-E2E", "4", "every caption after the first becomes visible within three frames of its start"),
+        "stamp": ("R-E2E", "4", "_format_timestamp: the time code is the number of whole frames of non-drop-frame time "
+                                "(every quarter frame of 70 s, and around the minute/hour carries)"),
+    })
+    report.not_decided += ["'visible within three frames' beyond the generated spacings; the first cue (never pre-rolled)",
+                           "re-read by pycaption's own SCC reader (C05 decides the reader against the same reference)"]
 
 
 def parity(ctx, report, folder):
